@@ -340,3 +340,80 @@ Proof.
   rewrite strip_app. cbn [SR.tok_end]. change (SR.is_regular x0a) with false.
   cbn [negb SR.of_opt SR.sbind SR.skip_sp SR.is_ws]. reflexivity.
 Qed.
+
+(* ---------- header and binary comment ---------- *)
+Lemma span_spec : forall p (s a r : bytes), SR.span p s = (a, r) -> s = a ++ r /\ forallb p a = true.
+Proof.
+  intro p. induction s as [|c s IH]; intros a r H; cbn [SR.span] in H.
+  - inversion H; subst. split; reflexivity.
+  - destruct (p c) eqn:P.
+    + destruct (SR.span p s) as [a' r'] eqn:E. inversion H; subst.
+      destruct (IH _ _ eq_refl) as [-> F]. cbn. rewrite P, F. split; reflexivity.
+    + inversion H; subst. split; reflexivity.
+Qed.
+
+Definition digit_or_dot_b (c : byte) : bool :=
+  implb (is_dec_digit c || byte_eqb c x2e) (SR.not_eol c).
+Lemma digit_or_dot_sweep : byte_forallb digit_or_dot_b = true.
+Proof. vm_compute. reflexivity. Qed.
+Definition high_not_eol_b (c : byte) : bool := implb (SR.is_high c) (SR.not_eol c).
+Lemma high_not_eol_sweep : byte_forallb high_not_eol_b = true.
+Proof. vm_compute. reflexivity. Qed.
+
+Lemma forallb_impl_sweep (p q : byte -> bool) :
+  byte_forallb (fun c => implb (p c) (q c)) = true ->
+  forall l, forallb p l = true -> forallb q l = true.
+Proof.
+  intros H l. induction l as [|c l IH]; cbn [forallb]; [reflexivity|].
+  intro K. apply andb_true_iff in K as [Kc Kl].
+  pose proof (byte_forallb_spec _ H c) as Hc. cbv beta in Hc. rewrite Kc in Hc. cbn [implb] in Hc.
+  rewrite Hc, (IH Kl). reflexivity.
+Qed.
+
+Lemma version_ok_not_eol v : SR.version_ok v = true -> forallb SR.not_eol v = true.
+Proof.
+  unfold SR.version_ok. destruct (SR.span SR.is_digit v) as [a r] eqn:E.
+  destruct (span_spec _ _ _ _ E) as [-> Fa].
+  destruct a as [|a0 a]; [discriminate|]. destruct r as [|dot r']; [discriminate|].
+  intro H. apply andb_true_iff in H as [Hd Hr]. apply byte_eqb_eq in Hd. subst dot.
+  destruct (SR.span SR.is_digit r') as [b r2] eqn:E2.
+  destruct (span_spec _ _ _ _ E2) as [-> Fb].
+  destruct b as [|b0 b]; [discriminate|]. destruct r2; [|discriminate]. rewrite app_nil_r.
+  apply (forallb_impl_sweep (fun c => is_dec_digit c || byte_eqb c x2e) SR.not_eol digit_or_dot_sweep).
+  rewrite forallb_app. cbn [forallb]. rewrite is_digit_eq in Fa, Fb.
+  cbn [forallb] in Fa, Fb. apply andb_true_iff in Fa as [Fa0 Fa]. apply andb_true_iff in Fb as [Fb0 Fb].
+  rewrite Fa0, Fb0. cbn [orb andb]. change (byte_eqb x2e x2e) with true. rewrite orb_true_r. cbn [andb].
+  apply andb_true_iff. split.
+  - clear -Fa. induction a as [|c a IH]; cbn [forallb] in *; [reflexivity|].
+    apply andb_true_iff in Fa as [F1 F2]. rewrite F1, (IH F2). reflexivity.
+  - clear -Fb. induction b as [|c b IH]; cbn [forallb] in *; [reflexivity|].
+    apply andb_true_iff in Fb as [F1 F2]. rewrite F1, (IH F2). reflexivity.
+Qed.
+
+Lemma filter_all {A} (p : A -> bool) l : forallb p l = true -> filter p l = l.
+Proof.
+  induction l as [|c l IH]; cbn [forallb filter]; [reflexivity|].
+  intro H. apply andb_true_iff in H as [H1 H2]. rewrite H1, (IH H2). reflexivity.
+Qed.
+
+(* the header line and the binary-mark line the writer emits are a valid header and binary
+   comment for the strict reader, which recovers the version *)
+Theorem save_header_accepted : forall d rest,
+  SR.version_ok (d_version d) = true ->
+  binary_mark_ok (d_binary_mark d) = true -> (4 <= length (d_binary_mark d))%nat ->
+  SR.p_header (header_bytes d ++ mark_bytes d ++ rest) = SR.SOk (d_version d, SR.skip_ws rest false).
+Proof.
+  intros d rest Hv Hm Hl. unfold header_bytes, mark_bytes, SR.p_header.
+  rewrite <- !app_assoc. change SR.KW_pdf with (bs "%PDF-"). rewrite strip_app.
+  cbn [SR.of_opt SR.sbind].
+  rewrite (span_app SR.not_eol (d_version d)); [|apply version_ok_not_eol; exact Hv | reflexivity].
+  rewrite Hv. cbn [negb app SR.p_eol]. change (byte_eqb x0a x0d) with false. change (byte_eqb x0a x0a) with true.
+  cbv iota. cbn [SR.of_opt SR.sbind]. rewrite byte_eqb_refl.
+  assert (Hhigh : forallb SR.is_high (d_binary_mark d) = true) by exact Hm.
+  rewrite <- app_assoc.
+  rewrite (span_app SR.not_eol (d_binary_mark d));
+    [| apply (forallb_impl_sweep SR.is_high SR.not_eol high_not_eol_sweep); exact Hhigh | reflexivity].
+  rewrite (filter_all _ _ Hhigh). apply Nat.leb_le in Hl. rewrite Hl.
+  cbn [app SR.p_eol]. change (byte_eqb x0a x0d) with false. change (byte_eqb x0a x0a) with true.
+  cbv iota. cbn [SR.of_opt SR.sbind]. reflexivity.
+Qed.
